@@ -399,3 +399,22 @@ def director_scenario(rng, max_ts=3):
             sc.setdefault('init', {})
     sc['emit_step'] = 1
     return sc
+
+
+def recreate_scenarios():
+    """A path deleted by one director and created again by another in the same
+    batch, while the old process has an update in flight: the new process must
+    start at the time of its creation."""
+    out = []
+    for ts_old in (2, 3, 5):
+        for ts_new in (1, 2):
+            for when in (1, 2):
+                cfg3 = {'vars': ['p3', 's'], 'writes': {'s': [1]}, 'ts': [ts_new], 'cond': [True]}
+                p1 = {'vars': ['p1'], 'writes': {}, 'ts': [1], 'cond': [True],
+                      'sops': [None] * (when - 1) + [{'op': 'del', 'q': 'p3'}]}
+                p2 = {'vars': ['p2'], 'writes': {}, 'ts': [when], 'cond': [True],
+                      'sops': [{'op': 'add', 'q': 'p3', 'cfg': cfg3}]}
+                p3 = {'vars': ['p3', 's'], 'writes': {'s': [1]}, 'ts': [ts_old], 'cond': [True]}
+                out.append({'procs': {'p1': p1, 'p2': p2, 'p3': p3}, 'order': ['p1', 'p2', 'p3'],
+                            'calls': [[8, True]], 'emit_step': 1, 'init': {}})
+    return out
